@@ -278,6 +278,7 @@ func (c05) Plan(tier string) []fw.Unit {
 	for s := 0; s < 8; s++ {
 		us = append(us, fw.Unit{Check: "C05", Kind: "paths", Tier: tier, Spec: fw.Spec(enumSpec{Shard: s, Shards: 8})})
 	}
+	us = append(us, fw.Unit{Check: "C05", Kind: "from-alias", Tier: tier, Spec: fw.Spec(enumSpec{})})
 	bound := 2 // (raised from 1: a lock-upgrade race in Trigger needs the clock to fire a due timer and one preemption)
 	if tier == "thorough" {
 		bound = 3
@@ -316,6 +317,9 @@ func (c05) Run(u fw.Unit) fw.Result {
 	}
 	if u.Kind == "paths" {
 		return c05Paths(u)
+	}
+	if u.Kind == "from-alias" {
+		return c05FromAlias()
 	}
 	sp := parseEnum(u)
 	a := newAcc("C05", "sync-projection")
